@@ -1,14 +1,17 @@
 import Model.Bls
 import Model.Ecdsa
 import Proofs.Bytes
+import Proofs.E2Codec
 import Extracted.Consts
 
 /-! # C05 — serialization is canonical and validating
 
 Theorems about the byte codecs of the model (`Model.Bls`, `Model.Ecdsa`): for every byte string a
 decoder either rejects it or accepts it and the encoder gives the same bytes back; accepted private keys
-are exactly the 32-byte scalars in `[1, order-1]`.  The point codecs (E1/E2/compressed ECDSA) are tied by
-correspondence in this round; their canonicity theorems need the square-root lemmas (see DESIGN.md). -/
+are exactly the 32-byte scalars in `[1, order-1]`; the compressed point codecs of BLS12-381 (E1: signatures,
+E2: public keys) accept exactly the canonical encodings of reduced curve points and round-trip on all of them
+(primality of `p` by a Pratt certificate, `p ≡ 3 mod 4`, completeness of the F_p and F_p² square roots, no
+point with `y = 0` on either curve).  The X9.62-compressed ECDSA codec is tied by correspondence only. -/
 
 namespace Props.C05
 open Model
@@ -122,6 +125,75 @@ theorem ecdsa_pk_canonical (S : Ecdsa.CurveSpec) (b : Bytes) (Q : Nat × Nat)
   rw [h1] at e1; rw [h2] at e2
   simp only [e1, e2, List.take_append_drop]
 
+/-! ### BLS points: signatures (E1, 48 bytes) and public keys (E2, 96 bytes) -/
+
+/-- **signature parsing is canonical and validating**: `E1_read_bytes` returns `P` on `b` exactly when `P` is a
+    reduced point of `y² = x³ + 4` (or infinity) and `b` is its compressed serialization -/
+theorem bls_sig_accepts_iff (b : Bytes) (P : Bls.P1) :
+    Bls.readE1 b = .ok P ↔ (Proofs.E1Codec.Valid P ∧ Bls.writeE1 P = b) := Proofs.E1Codec.e1_accepts_iff b P
+
+/-- accepted signature bytes re-encode to exactly the input -/
+theorem bls_sig_canonical (b : Bytes) (P : Bls.P1) (h : Bls.readE1 b = .ok P) : Bls.writeE1 P = b :=
+  Proofs.E1Codec.e1_canonical b P h
+
+/-- every point the package can produce (a reduced curve point) encodes to bytes that decode back to it -/
+theorem bls_sig_roundtrip (P : Bls.P1) (h : Proofs.E1Codec.Valid P) : Bls.readE1 (Bls.writeE1 P) = .ok P :=
+  Proofs.E1Codec.e1_roundtrip P h
+
+/-- the same three facts for `E2_read_bytes` / `E2_write_bytes` -/
+theorem bls_e2_accepts_iff (b : Bytes) (P : Bls.P2) :
+    Bls.readE2 b = .ok P ↔ (Proofs.E2Codec.Valid P ∧ Bls.writeE2 P = b) := Proofs.E2Codec.e2_accepts_iff b P
+
+/-- **accepted BLS public keys are exactly the canonical compressed encodings of G2 elements, including the
+    identity**: `DecodePublicKey` returns `P` on `b` iff `P` is a reduced curve point (or infinity) with
+    `r • P = O` and `b` is its serialization -/
+theorem bls_pk_accepts_iff (b : Bytes) (P : Bls.P2) :
+    Bls.decodePublicKey b = some P ↔ (Proofs.E2Codec.Valid P ∧ Bls.inG2 P = true ∧ Bls.writeE2 P = b) := by
+  unfold Bls.decodePublicKey
+  constructor
+  · intro h
+    split at h
+    · cases h
+    cases hr : Bls.readE2 b with
+    | error e => rw [hr] at h; cases h
+    | ok Q =>
+      rw [hr] at h
+      dsimp only at h
+      split at h
+      · rename_i hg
+        have := Option.some.inj h
+        subst this
+        obtain ⟨hv, hw⟩ := (bls_e2_accepts_iff b Q).1 hr
+        exact ⟨hv, hg, hw⟩
+      · cases h
+  · rintro ⟨hv, hg, hw⟩
+    have hr := (bls_e2_accepts_iff b P).2 ⟨hv, hw⟩
+    have hl : b.length = 96 := by
+      unfold Bls.readE2 at hr
+      split at hr
+      · cases hr
+      · omega
+    rw [if_neg (by omega), hr]
+    dsimp only
+    rw [if_pos hg]
+
+/-- an accepted public key re-encodes to exactly the input bytes, and is in G2 -/
+theorem bls_pk_canonical (b : Bytes) (P : Bls.P2) (h : Bls.decodePublicKey b = some P) :
+    Bls.writeE2 P = b ∧ Bls.inG2 P = true :=
+  let ⟨_, hg, hw⟩ := (bls_pk_accepts_iff b P).1 h; ⟨hw, hg⟩
+
+/-- every G2 element (the identity included) encodes to bytes that decode back to it -/
+theorem bls_pk_roundtrip (P : Bls.P2) (hv : Proofs.E2Codec.Valid P) (hg : Bls.inG2 P = true) :
+    Bls.decodePublicKey (Bls.writeE2 P) = some P := (bls_pk_accepts_iff _ P).2 ⟨hv, hg, rfl⟩
+
+/-- the identity public key is the one byte string `C0 00 … 00` -/
+theorem bls_pk_identity (b : Bytes) : Bls.decodePublicKey b = some none ↔ b = 0xC0 :: zeros 95 := by
+  rw [bls_pk_accepts_iff]
+  constructor
+  · rintro ⟨_, _, hw⟩; exact hw.symm
+  · intro h
+    exact ⟨fun x y hxy => (nomatch hxy), by decide +kernel, h.symm⟩
+
 /-! ### lengths: the decoders accept exactly one length each (tie to the constants of the code) -/
 
 theorem bls_pk_length (b : Bytes) (h : (Bls.decodePublicKey b).isSome) : b.length = 96 := by
@@ -164,3 +236,11 @@ end Props.C05
 #print axioms Props.C05.bls_pk_length
 #print axioms Props.C05.bls_sig_length
 #print axioms Props.C05.tie_lengths
+#print axioms Props.C05.bls_sig_accepts_iff
+#print axioms Props.C05.bls_sig_canonical
+#print axioms Props.C05.bls_sig_roundtrip
+#print axioms Props.C05.bls_e2_accepts_iff
+#print axioms Props.C05.bls_pk_accepts_iff
+#print axioms Props.C05.bls_pk_canonical
+#print axioms Props.C05.bls_pk_roundtrip
+#print axioms Props.C05.bls_pk_identity
